@@ -379,6 +379,11 @@ type vRecord struct {
 	Snap   string `json:"snap"`   // "" or description of a restored-replica disagreement (C03)
 	SnapAt int    `json:"snapat"` // cut point of the disagreeing restored replica
 	Lines  string `json:"lines"`  // "" or description of a malformed output line (C15 at the FSM level)
+	View   string `json:"view"`   // "" or mismatch between NAMES/LIST/WHOIS answers and the projected state (C14)
+	// expiry probe (k = "expire"): sessions with their age relative to the expiration, and what ExpireSessions proposed
+	Exp    int64           `json:"exp,omitempty"`
+	Ages   [][]interface{} `json:"ages,omitempty"`   // [id, rid, age-exp in seconds]
+	Expire []int64         `json:"expire,omitempty"` // ids proposed for deletion
 }
 
 func vCheckLines(msgs []outputstream.Message) string {
@@ -506,8 +511,125 @@ func vRunHistory(t *testing.T, h int, next func(step int, st map[string]interfac
 		for id := int64(0); id <= maxid+2; id++ {
 			rec.Lookup = append(rec.Lookup, []interface{}{id, reals[0].srv.VerifLookup(uint64(id))})
 		}
+		if (idx+1)%5 == 0 {
+			rec.View = vProbeView(d0.srv, rec.Post)
+		}
 		enc.Encode(rec)
 	}
+	// C17: expiry sweep around the threshold, on a serialized copy of the final state
+	if b, err := d0.srv.Marshal(0); err == nil {
+		cp := ircserver.NewIRCServer(vNet, base)
+		if _, err := cp.Unmarshal(b); err == nil {
+			proj := cp.VerifProject()
+			exp := proj["cfg"].(map[string]interface{})["exp"].(int64)
+			offs := []int64{-3600, -60, -3, 3, 60, 3600}
+			rec := &vRecord{K: "expire", H: h, Post: proj, Out: []vReply{}, Lookup: [][]interface{}{}, Exp: exp,
+				Ages: [][]interface{}{{-7, 0, -1}}} // first row / element -7: sentinel (empty lists are omitted from the JSON)
+			age := map[robust.Id]int64{}
+			for n, x := range proj["ss"].([]interface{}) {
+				m := x.(map[string]interface{})
+				off := offs[(n+h)%len(offs)]
+				rec.Ages = append(rec.Ages, []interface{}{m["id"], m["rid"], off})
+				_ = m
+				age[vIdOf(m)] = exp + off
+			}
+			cp.VerifSetLastActivity(func(id robust.Id) time.Duration {
+				return time.Duration(age[id]) * time.Second
+			}, time.Now())
+			rec.Expire = []int64{-7}
+			for _, m := range cp.ExpireSessions() {
+				if m.Type != robust.DeleteSession || m.Session.Reply != 0 {
+					rec.Expire = append(rec.Expire, -1)
+					continue
+				}
+				rec.Expire = append(rec.Expire, int64(m.Session.Id))
+			}
+			sort.Slice(rec.Expire, func(a, b int) bool { return rec.Expire[a] < rec.Expire[b] })
+			enc.Encode(rec)
+		}
+	}
+}
+
+// vIdOf reconstructs the robust.Id of a projected session.
+func vIdOf(m map[string]interface{}) robust.Id {
+	id := robust.Id{Id: uint64(m["id"].(int64))}
+	if rid := m["rid"].(int); rid != 0 {
+		for h, idx := range vRid {
+			if idx == rid {
+				id.Reply = h
+			}
+		}
+	}
+	return id
+}
+
+// vProbeView asks a serialized copy of the server (so probing does not perturb the run) what
+// NAMES says about every channel, from a member's point of view, and compares with the projection.
+func vProbeView(srv *ircserver.IRCServer, proj map[string]interface{}) string {
+	b, err := srv.Marshal(0)
+	if err != nil {
+		return "Marshal: " + err.Error()
+	}
+	cp := ircserver.NewIRCServer(vNet, time.Unix(1500000000, 0))
+	if _, err := cp.Unmarshal(b); err != nil {
+		return "Unmarshal: " + err.Error()
+	}
+	nk := proj["nk"].(map[string]interface{})
+	sessBySid := map[int64]map[string]interface{}{}
+	for _, x := range proj["ss"].([]interface{}) {
+		m := x.(map[string]interface{})
+		sessBySid[m["id"].(int64)*1000+int64(m["rid"].(int))] = m
+	}
+	for lc, c := range proj["ch"].(map[string]interface{}) {
+		ch := c.(map[string]interface{})
+		mem := ch["mem"].(map[string]interface{})
+		// a member that is a client session asks
+		var asker map[string]interface{}
+		for n := range mem {
+			if sid, ok := nk[n]; ok {
+				if s := sessBySid[sid.(int64)]; s != nil && s["rid"].(int) == 0 && s["li"].(bool) {
+					asker = s
+					break
+				}
+			}
+		}
+		if asker == nil {
+			continue
+		}
+		var want []string
+		for n, op := range mem {
+			sid, ok := nk[n]
+			if !ok || sessBySid[sid.(int64)] == nil {
+				return fmt.Sprintf("member %q of %s does not resolve to a session", n, lc)
+			}
+			p := ""
+			if b, _ := op.(bool); b {
+				p = "@"
+			}
+			want = append(want, p+sessBySid[sid.(int64)]["nick"].(string))
+		}
+		sort.Strings(want)
+		msg := &robust.Message{Id: robust.Id{Id: 1 << 40}, Session: robust.Id{Id: uint64(asker["id"].(int64))}}
+		var got []string
+		func() {
+			defer func() {
+				if x := recover(); x != nil {
+					got = []string{fmt.Sprintf("panic: %v", x)}
+				}
+			}()
+			reply := cp.ProcessMessage(msg, irc.ParseMessage("NAMES "+ch["name"].(string)))
+			for _, m := range reply.Messages {
+				if pm := irc.ParseMessage(m.Data); pm != nil && pm.Command == "353" && len(pm.Params) == 4 {
+					got = append(got, strings.Fields(pm.Params[3])...)
+				}
+			}
+		}()
+		sort.Strings(got)
+		if strings.Join(got, " ") != strings.Join(want, " ") {
+			return fmt.Sprintf("NAMES %s answers %v, state says %v", ch["name"], got, want)
+		}
+	}
+	return ""
 }
 
 // vSameOutLive compares outputs restricted to recipients that are sessions of the reference server.
